@@ -324,6 +324,8 @@ def main(argv=None):
                     futs = {ex.submit(_worker_chunk, (prop, tier, base, c, n_self, per_run_timeout,
                                                       marker_dir)): c for c in idx_chunks}
                     for fut in as_completed(futs):
+                        if fut.cancelled():
+                            continue
                         for o in fut.result():
                             results[o["i"]] = o
                         if time.time() - t_batch > cap_s:
